@@ -164,8 +164,12 @@ let errk_name = function
 
 let trace st = String.concat "" (List.map (fun args -> "(" ^ String.concat " " (List.map (value st 0) args) ^ ")") st.trace)
 
+exception Budget
+
 let () =
   let fuel = nat_of_int (try int_of_string (Sys.getenv "SEM_FUEL") with Not_found -> 800) in
+  let budget = (try int_of_string (Sys.getenv "SEM_BUDGET_S") with Not_found -> 30) in
+  Sys.set_signal Sys.sigalrm (Sys.Signal_handle (fun _ -> raise Budget));
   try
     while true do
       let line = input_line stdin in
@@ -176,11 +180,15 @@ let () =
             (match (try Some (List.map node stmts) with Failure _ -> None) with
              | None -> print_endline "UNSUPPORTED ast"
              | Some ns ->
-                 (match run fuel ns with
-                  | (OVal v, st) -> print_endline ("OK " ^ value st 0 v ^ " TRACE " ^ trace st)
-                  | (OErr k, st) -> print_endline ("ERR " ^ errk_name k ^ " TRACE " ^ trace st)
-                  | (OBrk, _) | (OCont, _) -> print_endline "ERR ctl"
-                  | (ORet v, st) -> print_endline ("ERR ret")))
+                 (* nested loops that never end cost fuel^depth steps: a wall-clock budget per program; a program
+                    that exceeds it is not an observation (SKIP), exactly like a timeout on the implementation's side *)
+                 (match (try ignore (Unix.alarm budget); let r = run fuel ns in ignore (Unix.alarm 0); Some r
+                         with Budget -> None) with
+                  | None -> print_endline "SKIP time-budget"
+                  | Some (OVal v, st) -> print_endline ("OK " ^ value st 0 v ^ " TRACE " ^ trace st)
+                  | Some (OErr k, st) -> print_endline ("ERR " ^ errk_name k ^ " TRACE " ^ trace st)
+                  | Some (OBrk, _) | Some (OCont, _) -> print_endline "ERR ctl"
+                  | Some (ORet v, st) -> print_endline ("ERR ret")))
         | _ -> print_endline "BADINPUT"
       end
     done
